@@ -344,9 +344,33 @@ def trackOK (S : StrFns) (L : List Mapper) (n : String) : Bool :=
 def noCross (S : StrFns) (L : List Mapper) (full : List Fld) (n : String) : Bool :=
   (lookupR (.nest n) (shapeFields S L full)).isNone || (nk S L n == n)
 
+def keyFlat (S : StrFns) (L : List Mapper) (n : String) : Bool :=
+  match keyOf S L n with
+  | .sub _ => false
+  | _ => true
+
 mutual
-/-- levels reached by re-aggregation (depth >= 1 below the top class): nested classes below have no own
-    mappers, nested entries are tracked and never collide -/
+/-- the shape list of `L` over `fs` has pairwise distinct keys at every depth and no dict as a field's
+    value: it equals itself as a Python dict, at every depth -/
+def selfFs (S : StrFns) (L : List Mapper) : List Fld → Bool
+  | [] => true
+  | f :: fs => selfF S L f && selfFs S L fs
+termination_by structural fs => fs
+def selfF (S : StrFns) (L : List Mapper) : Fld → Bool
+  | .scalar n _ => keyFlat S L n
+  | .nested n _ _ ci fs =>
+    keyFlat S L n && ci.desL.all plainMapper && prefixOK S fs [] (ci.desL ++ enumsOf L)
+      && mkeysNodup (shapeFields S (ci.desL ++ enumsOf L) fs) && selfFs S (ci.desL ++ enumsOf L) fs
+termination_by structural f => f
+end
+
+def selfOK (S : StrFns) (L : List Mapper) (fs : List Fld) : Bool :=
+  mkeysNodup (shapeFields S L fs) && selfFs S L fs
+
+mutual
+/-- levels reached by re-aggregation (depth >= 1 below the top class): nested entries are tracked and
+    never collide, and every class nested below either has no own mappers, or (it may have any plain own
+    mappers, at any depth below) no enum mapper acts on it from above -/
 def reaggFs (S : StrFns) (L : List Mapper) (full : List Fld) : List Fld → Bool
   | [] => true
   | f :: fs => reaggF S L full f && reaggFs S L full fs
@@ -354,9 +378,11 @@ termination_by structural fs => fs
 def reaggF (S : StrFns) (L : List Mapper) (full : List Fld) : Fld → Bool
   | .scalar _ _ => true
   | .nested n _ _ ci fs =>
-    ci.desL.isEmpty && ci.ser.isEmpty && trackOK S L n && noCross S L full n && !fs.isEmpty
-      && prefixOK S fs [] (enumsOf L) && mkeysNodup (shapeFields S (enumsOf L) fs)
-      && reaggFs S (enumsOf L) fs fs
+    trackOK S L n && noCross S L full n && !fs.isEmpty
+      && ((ci.desL.isEmpty && ci.ser.isEmpty && prefixOK S fs [] (enumsOf L)
+            && mkeysNodup (shapeFields S (enumsOf L) fs) && reaggFs S (enumsOf L) fs fs)
+          || ((enumsOf L).isEmpty && ci.desL.all plainMapper && prefixOK S fs [] ci.desL
+                && selfOK S ci.desL fs))
 termination_by structural f => f
 end
 
